@@ -26,13 +26,17 @@ RULE = (
     "still run, unmatched error swallowed)."
 )
 ASSUMPTIONS = [
-    "return/break/continue directly inside a finally part are not generated; "
-    "catch values are literals or plain variables; messages are not compared",
+    "return/break/continue inside a finally part are judged only while an "
+    "error is leaving the block (the statement says the error continues "
+    "outward unchanged); on the other paths their effect is unspecified and "
+    "the program is discarded; catch values are literals or plain variables; "
+    "messages are not compared",
     "programs on which the reference evaluator meets something the statement "
     "leaves open are discarded and counted",
 ]
 MUTANTS = ["catch-first-clause", "finally-skipped-on-exit", "finally-twice",
-           "continue-after-error", "swallow-unmatched"]
+           "continue-after-error", "swallow-unmatched",
+           "finally-exit-swallows-error"]
 
 
 def prop(case):
